@@ -1552,7 +1552,7 @@ fn main() {
 
     // the generated streams are spread over worker threads, each with its own driver and its own PRNG
     // (seeded from --seed and the thread index, so a seed replays exactly)
-    let n = args.count(20_000, 2_000_000);
+    let n = args.count(20_000, 1_000_000);
     let threads: u64 = if args.thorough() { std::thread::available_parallelism().map(|x| x.get() as u64).unwrap_or(4).clamp(2, 16) } else { 8 };
     let per = n.div_ceil(threads);
     {
